@@ -232,6 +232,31 @@ func genDetScenario(r *verifsim.Run, focus string) *aScenario {
 	}
 	g := &detGen{r: r, c: c, style: r.Pick(5, 1, 0)}
 	n := r.Range(10, 120)
+	if (focus == "C07" || focus == "C09") && r.Chance(1, 4) {
+		// a recording window with an edge inside the run: what the detector sees and keeps does not
+		// depend on the time of day
+		c.NoWindow = false
+		c.WinStart = r.Draw(24 * 60)
+		c.WinStop = (c.WinStart + 1 + r.Draw(3)) % (24 * 60)
+		if r.Chance(1, 2) {
+			c.WinStart, c.WinStop = c.WinStop, c.WinStart // closed for a minute or so: the run can see it close and re-open
+		}
+		b := c.WinStart
+		if r.Chance(1, 2) {
+			b = c.WinStop
+		}
+		lead := r.Draw(n)
+		if c.WinStart == (c.WinStop+1)%(24*60) && r.Chance(2, 3) {
+			// closed for exactly one minute, slow camera, long run: closing, an FFC period while closed and
+			// the re-opening all fit
+			c.Fps = r.OneOf(1, 2)
+			n = r.Range(90, 170) * c.Fps
+			b = c.WinStop
+			lead = r.Range(2, 20) * c.Fps
+		}
+		day := time.Date(2021, 3, 14, 0, 0, 0, 0, simZone)
+		sc.Start = day.Add(time.Duration(b)*time.Minute - time.Duration(lead)*time.Second/time.Duration(c.Fps))
+	}
 	if focus == "C15" && r.Chance(1, 40) {
 		// realistic and large sensors (Lepton 160x120, Boson 320x256 / 640x512): sums over the whole
 		// interior must not overflow; few frames, because a frame costs milliseconds here
@@ -259,7 +284,7 @@ func genDetScenario(r *verifsim.Run, focus string) *aScenario {
 		pClear = r.OneOf(10, 40)
 	}
 	pFFC := 0
-	if focus == "C09" || focus == "C15" || focus == "C08" && c.Motion.DynamicThreshold {
+	if focus == "C09" || focus == "C15" || focus == "C08" {
 		pFFC = r.OneOf(0, 10, 30)
 		if focus == "C09" {
 			pFFC = r.OneOf(10, 30, 60)
